@@ -732,6 +732,9 @@ func (tic *TermInCommittee) validateViewChangeVotes(targetBlockHeight primitives
 			return fmt.Errorf("memberId %s appears in more than one confirmation", senderMemberIdStr)
 		}
 		set[senderMemberIdStr] = true
+		if err := tic.isViewChangeValid(tic.calcLeaderMemberId(targetView), targetView, confirmation); err != nil {
+			return errors.Wrapf(err, "confirmation of memberId %s is invalid", senderMemberIdStr)
+		}
 	}
 
 	return nil
